@@ -4,6 +4,7 @@ INVARIANT NoEarlyWrite
 INVARIANT AttachLast
 INVARIANT FactoryLaw
 INVARIANT Outcome
+INVARIANT SpecCarriesNothing
 INVARIANT NeverReplaced
 INVARIANT ReadBack
 CHECK_DEADLOCK FALSE
